@@ -50,6 +50,7 @@ func scenarioC17(r *Run) {
 	}
 	conns := make([]*LConn, 1+nbg)
 	thinks := 0
+	bgCloses := 0
 	for i := range conns {
 		lc := &LConn{I: i, TIdx: 0, Lsn: cfg.Listeners[0], Mode: "active"}
 		if i == 0 {
@@ -74,11 +75,37 @@ func scenarioC17(r *Run) {
 			lc.PlanA, lc.PlanT = Partition(c, na, "bg-part"), Partition(c, nt, "bg-part")
 			if c.Chance(1, 2, "bg-idle") {
 				lc.Mode = "idle"
+			} else if c.Chance(1, 2, "bg-closes") {
+				// a neighbour on the same listener finishes in an orderly way at a moment the driver chooses,
+				// possibly in the middle of the test connection's transfer
+				if c.Chance(1, 2, "bg-closer") {
+					lc.PlanA = append(lc.PlanA, Op{Kind: "close"})
+				} else {
+					lc.PlanT = append(lc.PlanT, Op{Kind: "close"})
+				}
+				bgCloses++
 			}
 		}
 		conns[i] = lc
 	}
 	cs := NewConnSet(r, w, first, conns)
+	// the test connection is opened before, between or after its neighbours
+	cs.Order = make([]int, 0, len(conns))
+	at := c.Pick(len(conns), "test-connection-opened-nth")
+	for i := 1; i < len(conns); i++ {
+		if len(cs.Order) == at {
+			cs.Order = append(cs.Order, 0)
+		}
+		cs.Order = append(cs.Order, i)
+	}
+	if len(cs.Order) < len(conns) {
+		cs.Order = append(cs.Order, 0)
+	}
+	r.Info["open_order"] = fmt.Sprint(cs.Order)
+	r.Info["background_closing"] = bgCloses
+	if bgCloses > 0 {
+		r.Count("runs_with_closing_neighbour")
+	}
 	r.Info["carrier"] = carrier
 	r.Info["closer"] = closer
 	r.Info["payload"] = payload
